@@ -2386,7 +2386,10 @@ func TestCheck(t *testing.T) {
 		"non-trivial = every connection had exactly n queries inside the gated handler. " +
 		"service: real dnssvc.Service with Config.ConnLimiter, 2 groups / 4 servers / 5 stream listeners (plain DNS over TCP and DoT, each with a server on bind addresses and a server whose bind data " +
 		"carries its own ListenConfig; the DoT one has two bind-data entries); 2 seeded (stop,resume) pairs with stop > 5 (all 7 in thorough) x every listener as the one through which the connections are opened first; " +
-		"real TCP/TLS client connections; distinct = (stop,resume,filler listener); non-trivial = `stop` answered connections were open at once and further connections to every listener were probed")
+		"real TCP/TLS client connections; distinct = (stop,resume,filler listener); non-trivial = `stop` answered connections were open at once and further connections to every listener were probed. " +
+		"binary-pipeline: the real binary on config.dist.yaml with ratelimit.tcp.enabled x ratelimit.quic.enabled in {true,false}^2 and max_pipeline_count n = 2 (1, 2, 5 in thorough); one burst of n+6 never-cached queries on one connection " +
+		"to every plain-DNS TCP and DoT address; observer = the stub upstream holding the burst's queries and recording the peak number of distinct names held at once; distinct = (proto, tcp.enabled, quic.enabled, n); " +
+		"non-trivial = the limit was reached exactly (enabled) or exceeded (disabled: control)")
 	r.Assume("quiescent point = one stop-the-world goroutine dump shows every actor with a call in progress parked in a blocking primitive (sync.Cond.Wait, channel, mutex), " +
 		"all other calls have returned and the event log did not grow; the limiter has no timers or goroutines of its own")
 	r.Assume("service monitor: a connection counts as accepted-and-open from the moment the client has its answer until the client closes it; the servers' idle timeout (1 h) never closes one first")
@@ -2399,6 +2402,7 @@ func TestCheck(t *testing.T) {
 	pipelineMonitor(r)
 	t2 := time.Now()
 	serviceMonitor(r)
+	binaryPipelineMonitor(r)
 	r.Extra("wall_s_limiter_pipeline_service", []float64{t1.Sub(t0).Seconds(), t2.Sub(t1).Seconds(), time.Since(t2).Seconds()})
 
 	r.Require("limiter_schedules_completed", int64(r.N(100, 1000)))
@@ -2427,6 +2431,9 @@ func TestCheck(t *testing.T) {
 	r.Require("service_connections_served_after_pipeline_slot_wait_timeouts", int64(r.N(4, 10)))
 	r.Require("shutdown_connections_accepted_during_shutdown", int64(r.N(3, 7)))
 	r.Require("shutdown_slot_released_after_shutdown", int64(r.N(3, 7)))
+	r.Require("binary-pipeline_bursts_limit_reached_tls", int64(r.N(1, 3)))
+	r.Require("binary-pipeline_bursts_limit_reached_dns", int64(r.N(1, 3)))
+	r.Require("binary-pipeline_control_bursts_above_limit_tls", 1)
 	r.Require("service-pipeline_cases_limit_reached", int64(r.N(5, 15)))
 	r.Require("service-pipeline_cases_tls", int64(r.N(3, 9)))
 	r.Require("service-pipeline_cases_tcp", int64(r.N(2, 6)))
